@@ -220,7 +220,7 @@ more('C19', 'PhasedXPowGate export by interpretation', 'C19.i PhasedXPowGate._qa
 more('C01', 'ordering rule on named initial states', 'C01.l a ProductState initial state is written in the qubit order of the simulation before it becomes a bare vector')
 more('C02', 'effect rule on confusion-map keys; helper-following guard rule', 'C02.n every consumer of confusion_map.items() uses the key tuple position by position, never through one picked element or a slice; '
      'C02.j (generalised) an extracted private helper is judged at each of its call sites')
-more('C04', 'stored-value normalisation of control values; helper-following representation guard', 'C04.i the constructors of the control-value classes store plain ints (stored values index numpy arrays, where a bool is a mask); C04.g (generalised) a private helper is judged at its call sites')
+more('C04', 'stored-value normalisation of control values; helper-following representation guard', 'C04.i the constructors of the control-value classes store plain ints (stored values index numpy arrays, where a bool is a mask); C04.g (generalised) a private helper is judged at its call sites; C04.j gate wrappers that size themselves from the wrapped gate also take their qid shape from it')
 more('C05', 'bookkeeping rules of the insertion routines (growth accounting, key-aware placement, one forward cursor, one reference index per batch)',
      'C05.m batch_insert accounts for earlier insertions by the growth of the circuit; C05.n placement routines also consult measurement / control keys (1 known finding: frontier-based insertion); '
      'C05.o insert_into_range keeps one forward-moving cursor; C05.p the reference index of Circuit.insert follows placements once per batch, not per item')
